@@ -105,14 +105,19 @@ def run(ctx, out):
         # real xcp
         driver = rng.choice(["parfile", "parblock"])
         os.mkdir(os.path.join(d, "dst"))
-        argv = [ctx.bins["xcp"], "-r", "--driver", driver, "-w", "2"] + (["--gitignore"] if use_flag else []) + [src, os.path.join(d, "dst")]
+        # how the source is spelled on the command line must not matter
+        spelling = rng.choice(["abs", "rel", "dotrel", "dotdot", "slash", "abs"])
+        os.mkdir(os.path.join(d, "sub"))
+        sarg = {"abs": src, "rel": "src", "dotrel": "./src", "dotdot": "sub/../src", "slash": "src/"}[spelling]
+        out.count("spelling_" + spelling)
+        argv = [ctx.bins["xcp"], "-r", "--driver", driver, "-w", "2"] + (["--gitignore"] if use_flag else []) + [sarg, os.path.join(d, "dst")]
         r = xcp.run_plain(argv, d)
         got = set()
         base = os.fsencode(os.path.join(d, "dst", "src"))
         for root, dirs, files in os.walk(base):
             for nme in dirs + files:
                 got.add(os.path.relpath(os.path.join(root, nme), base))
-        rep = dict(patterns=pats, tree=trees.describe(tree, 20), flag=use_flag, driver=driver, exit=r.exit, stderr=r.stderr[-200:])
+        rep = dict(patterns=pats, tree=trees.describe(tree, 20), flag=use_flag, driver=driver, source_spelling=sarg, exit=r.exit, stderr=r.stderr[-200:])
         nexcl = len(rels) - len(expect)
         out.case(("gi", tuple(pats), tuple(relb), use_flag), nontrivial=nexcl > 0)
         out.count("excluded_%s" % ("0" if nexcl == 0 else "1-3" if nexcl <= 3 else "4+"))
@@ -126,7 +131,8 @@ def run(ctx, out):
         # the crate's verdicts -> keep for the model
         if use_flag:
             inp = "".join("%s %d\n" % (b"/".join(rr).hex() or "-", 1 if kk == "dir" else 0) for rr, kk, _ in entries)
-            pr = subprocess.run([ctx.bins["probe"], "gitignore", src], input=inp, capture_output=True, text=True)
+            # the matcher is asked exactly as xcp asks it: same source spelling, same working directory
+            pr = subprocess.run([ctx.bins["probe"], "gitignore", sarg], input=inp, capture_output=True, text=True, cwd=d)
             verd = pr.stdout.split()
             ign_crate = [rr for (rr, _, _), v in zip(entries, verd) if v == "1"]
         else:
@@ -134,6 +140,60 @@ def run(ctx, out):
         tenc, _ = treecase.scan(os.fsencode(src), False)
         batch.append((rep, ign_crate, tenc, got))
         out.sample(dict(patterns=pats, entries=len(rels), excluded=nexcl, flag=use_flag), limit=6)
+        shutil.rmtree(d, ignore_errors=True)
+    # several sources in one invocation: each is filtered by ITS OWN root .gitignore (or by none)
+    n2 = 24 if quick else 400
+    for k in range(n2):
+        d = os.path.join(d0, "m%d" % k)
+        os.makedirs(d)
+        names = ["alpha", "beta", "gamma"][:rng.choice([2, 2, 3])]
+        expect = set()
+        allpats = {}
+        union = ("dir", {}, {})
+        specs = {}
+        for nm in names:
+            specs[nm] = gen_tree(rng, rng.choice([1, 2]))
+            union[1].update(specs[nm][1])
+        for nm in names:
+            tree = specs[nm]
+            src = os.path.join(d, nm)
+            trees.materialise(tree, os.fsencode(src))
+            has = rng.random() < 0.6
+            pats = gen_patterns(rng, union) if has else None
+            allpats[nm] = pats
+            if has:
+                open(os.path.join(src, ".gitignore"), "w").write("\n".join(pats) + "\n")
+            ref = os.path.join(d, "ref_" + nm)
+            shutil.copytree(src, ref, symlinks=True)
+            subprocess.run(["git", "init", "-q", ref], capture_output=True)
+            _, entries = treecase.scan(os.fsencode(src), False)
+            rels = [r for r, _, _ in entries if r]
+            ign_git = git_ignored(ref, [b"/".join(r) for r in rels]) if has else set()
+            for r in rels:
+                if not any(b"/".join(r[:i]) in ign_git for i in range(1, len(r) + 1)):
+                    expect.add(os.fsencode(nm) + b"/" + b"/".join(r))
+            expect.add(os.fsencode(nm))
+        order = list(names)
+        rng.shuffle(order)
+        rel = rng.random() < 0.5
+        driver = rng.choice(["parfile", "parblock"])
+        os.mkdir(os.path.join(d, "dst"))
+        argv = [ctx.bins["xcp"], "-r", "--gitignore", "--driver", driver, "-w", "2"] + \
+            [(x if rel else os.path.join(d, x)) for x in order] + [os.path.join(d, "dst")]
+        r = xcp.run_plain(argv, d)
+        got = set()
+        base = os.fsencode(os.path.join(d, "dst"))
+        for root, dirs, files in os.walk(base):
+            for nme in dirs + files:
+                got.add(os.path.relpath(os.path.join(root, nme), base))
+        rep = dict(kind="multi-source", order=order, patterns=allpats, relative=rel, driver=driver, exit=r.exit, stderr=r.stderr[-200:])
+        out.case(("gim", k, tuple(order), rel), nontrivial=any(v for v in allpats.values()))
+        out.count("multi_source")
+        if r.exit != 0:
+            out.violation("xcp --gitignore with several sources failed: exit %d" % r.exit, rep)
+        elif got != expect:
+            out.violation("several sources: copied set differs from what each source's own .gitignore allows: copied but excluded %r; "
+                          "not copied but not excluded %r" % (sorted(got - expect)[:4], sorted(expect - got)[:4]), rep)
         shutil.rmtree(d, ignore_errors=True)
     if ctx.model_ok:
         models = treecase.model_walk([(False, False, b[1], [], b[2]) for b in batch])
